@@ -4,6 +4,7 @@ package props
 
 import (
 	"fmt"
+	"reflect"
 	"unicode"
 
 	stackage "github.com/JesseCoretta/go-stackage"
@@ -22,6 +23,13 @@ func genIntVal(t *rapid.T) Val { return Val{K: "int", I: int64(rapid.IntRange(-5
 
 // genElemOfKind: a primitive of the given kind with a small value (element of a typed container).
 func genElemOfKind(t *rapid.T, k string) Val {
+	if rapid.IntRange(0, 3).Draw(t, "ev-zero?") == 0 {
+		// the zero value of the element type: what a missing map key or an unset slot reads as
+		if k == "str" {
+			return VS("")
+		}
+		return Val{K: k}
+	}
 	switch k {
 	case "str":
 		return VS(rapid.SampledFrom(textWords).Draw(t, "ev-s"))
@@ -92,11 +100,15 @@ func genCompositeVal(t *rapid.T) Val {
 			v.Keys = append(v.Keys, fmt.Sprintf("k%d", i))
 			switch ek {
 			case "str":
-				v.Elems = append(v.Elems, VS(rapid.SampledFrom(textWords).Draw(t, "mv")))
+				v.Elems = append(v.Elems, genElemOfKind(t, "str"))
 			case "ptr":
 				v.Elems = append(v.Elems, Val{K: "ptr", Depth: 1, Elems: []Val{genIntVal(t)}})
 			default:
-				v.Elems = append(v.Elems, genIntVal(t))
+				if rapid.IntRange(0, 3).Draw(t, "mv-zero?") == 0 {
+					v.Elems = append(v.Elems, VI(0))
+				} else {
+					v.Elems = append(v.Elems, genIntVal(t))
+				}
 			}
 		}
 		return v
@@ -175,6 +187,18 @@ func nearString(s string, variant int) string {
 }
 
 var mutVariant int // advanced by every string mutation so that all variants occur
+
+// zeroTag marks map entries whose value is the zero value of its type (a lookup of a missing key reads the same).
+func zeroTag(e Val) string {
+	switch e.K {
+	case "ptr", "slice", "array", "map", "imap":
+		return ""
+	}
+	if rv := reflect.ValueOf(e.Value()); rv.IsValid() && rv.IsZero() {
+		return "-under-zero-value"
+	}
+	return ""
+}
 
 func mutatePrim(v Val) Val {
 	w := v
@@ -331,7 +355,7 @@ func leafSites(v *Val, where string, depth int) []c05Site {
 				} else {
 					v.Keys[i] = v.Keys[i] + "~"
 				}
-			}, fmt.Sprintf("%s %s key %d of %d", where, v.K, i, n), "map/key-changed"})
+			}, fmt.Sprintf("%s %s key %d of %d", where, v.K, i, n), "map/key-changed" + zeroTag(*e)})
 		}
 	case "pub", "priv", "emb":
 		out = append(out, c05Site{func() { v.I++ }, where + " struct field A", "struct/" + v.K + "/field0"})
@@ -686,7 +710,7 @@ func init() {
 			"a struct field, pointee, keyword, operator, operator context, kind, capacity, sibling swap, one element more/fewer) must be rejected both ways; no panic. non-trivial = the pair carries a mutation; distinct = distinct (A,B) JSON",
 		Gen: genC05,
 		Run: runC05,
-		Floors: map[string]float64{"equal-only": 0.1, "mut:slice/elem/middle": 0.01, "mut:slice/elem/last": 0.01, "mut:map/value/last": 0.003, "mut:map/key-changed": 0.01,
+		Floors: map[string]float64{"equal-only": 0.1, "mut:slice/elem/middle": 0.01, "mut:slice/elem/last": 0.01, "mut:map/value/last": 0.003, "mut:map/key-changed": 0.005, "mut:map/key-changed-under-zero-value": 0.002,
 			"private-field-struct-present": 0.02, "mut:stack/swap": 0.003, "mut:cond/operator": 0.01, "mut:cond/keyword-case": 0.005, "mut:node/cond-to-stack": 0.005, "mut:leaf/type-change-same-text": 0.02, "in-place-pointee-change": 0.02, "mut:node/stack-to-cond": 0.005, "mut:stack/kind": 0.01, "mut:ptr/depth3/nested": 0.002, "mut:struct/priv/fieldB": 0.001, "comparable-struct-with-pointer-present": 0.01},
 		Assumptions: []string{"NaN, typed-nil pointers, containers nested in containers, functions and channels are not generated (outside the statement)",
 			"unexported struct fields are never mutated (documented as ignored); slices are built with cap==len (capacity is part of the documented slice comparison)"},
